@@ -602,3 +602,15 @@ mod tests {
         assert_eq!(t.find_by_bind(&key), &[a, b]);
     }
 }
+
+#[cfg(feature = "verif-hooks")]
+impl SocketTable {
+    /// (socket entries, binding-index entries, connection-index entries)
+    pub(crate) fn verif_counts(&self) -> (usize, usize, usize) {
+        (
+            self.sockets.len(),
+            self.bindings.values().map(Vec::len).sum(),
+            self.connections.len(),
+        )
+    }
+}
